@@ -70,6 +70,11 @@ def module_text(g, i):
   lines.append('Agg(s? += 1) distinct :- Priv(x), x > 0;')
   lines.append('Inc(x) = x + %d;' % (i + 1))
   lines.append('Pub(Inc(Inc(s)) + 5000) :- Agg(s:);')
+  # two private predicates of which one is already spelled like the other one with this file's prefix (Own and M1_Own in m1.l)
+  cap = g['layout'][i].split('/')[-1]; cap = cap[0].upper() + cap[1:]
+  lines.append('Own(%d); %s_Own(%d);' % (7000 + 10 * i, cap, 8000 + 10 * i))
+  lines.append('Pub(x + 1) :- Own(x);')
+  lines.append('Pub(x + 2) :- %s_Own(x);' % cap)
   return '\n'.join(lines) + '\n'
 
 
@@ -104,6 +109,8 @@ def flattened(g):
               R('M%d_Agg' % i, named={'s': lang.Aggr('Sum', N(1))}, body=(Lit('M%d_Priv' % i, x), lang.Cmp('>', x, N(0))), distinct=True),
               R('M%d_Inc' % i, x, value=Bin('+', x, N(i + 1))),
               R('M%d_Pub' % i, Bin('+', lang.Call('M%d_Inc' % i, lang.Call('M%d_Inc' % i, s_)), N(5000)), body=(Lit('M%d_Agg' % i, s=s_),))]
+    rules += [R('M%d_Own' % i, N(7000 + 10 * i)), R('M%d_OwnPrefixed' % i, N(8000 + 10 * i)),
+              R('M%d_Pub' % i, Bin('+', x, N(1)), body=(Lit('M%d_Own' % i, x),)), R('M%d_Pub' % i, Bin('+', x, N(2)), body=(Lit('M%d_OwnPrefixed' % i, x),))]
   s_ = V('s')
   rules += [R('Agg', named={'s': lang.Aggr('Sum', x)}, body=(Lit('Priv', x),), distinct=True), R('Agg', named={'s': lang.Aggr('Sum', N(7))}, body=(Lit('Priv', x),), distinct=True),
             R('Inc', x, value=Bin('+', x, N(1000))), R('V', lang.Call('Inc', lang.Call('Inc', s_)), body=(Lit('Agg', s=s_),))]
